@@ -128,24 +128,41 @@ def real_paths(rng):
         warnings.simplefilter('ignore')
         ds = lazy_dataset.new({f'k{j}': j for j in range(n)}).map(up).cache()
         got = []
-        for _ in range(rng.randint(2, 6)):
-            how = rng.choice(['iter', 'slice', 'key', 'neg', 'copy', 'prefetch1', 'prefetch2', 'items'])
+        full = [j * 1000 for j in range(n)]
+        steps = []
+        for _ in range(rng.randint(2, 7)):
+            how = rng.choice(['iter', 'slice', 'rslice', 'key', 'neg', 'copy', 'prefetch1', 'prefetch2', 'items', 'int'])
+            steps.append(how)
+            want = full
             if how == 'iter':
-                got += list(ds)
+                out = list(ds)
             elif how == 'slice':
-                got += list(ds[rng.randint(0, n):])
+                a = rng.randint(0, n)
+                out, want = list(ds[a:]), full[a:]
+            elif how == 'rslice':
+                out, want = list(ds[::-1]), full[::-1]
             elif how == 'key':
-                got.append(ds[f'k{rng.randrange(n)}'])
+                j = rng.randrange(n)
+                out, want = [ds[f'k{j}']], [full[j]]
             elif how == 'neg':
-                got.append(ds[-rng.randint(1, n)])
+                j = rng.randint(1, n)
+                out, want = [ds[-j]], [full[-j]]
+            elif how == 'int':
+                j = rng.randrange(n)
+                out, want = [ds[j]], [full[j]]
             elif how == 'copy':
-                got += list(ds.copy(freeze=rng.random() < 0.5))
+                out = list(ds.copy(freeze=rng.random() < 0.5))
             elif how == 'prefetch1':
-                got += list(ds.prefetch(1, 2))
+                out = list(ds.prefetch(1, 2))
             elif how == 'prefetch2':
-                got += list(ds.prefetch(2, 3))
+                out = list(ds.prefetch(2, 3))
             else:
-                got += [v for _, v in ds.items()]
+                out = [v for _, v in ds.items()]
+                if [k for k, _ in ds.items()] != [f'k{j}' for j in range(n)]:
+                    fails.append(('items_keys_order', {'steps': steps}))
+            if out != want:
+                fails.append(('access_path_not_transparent', {'path': how, 'steps': steps[:], 'got': out, 'want': want}))
+            got += out
     if any(v % 1000 != 0 for v in got):
         fails.append(('not_first_value', {'values': got}))
     if any(c > 1 for c in counts):
